@@ -415,10 +415,17 @@ def evaluate(histories, results, pristine, code):
         idxs.append(idx)
     resp = oracle_batch(reqs, chunk=500)
     out = []
-    for r, idx in zip(resp, idxs):
+    for r, idx, h, obs in zip(resp, idxs, histories, results):
         if r == [-1]:
             raise RuntimeError("oracle rejected an observation record")
-        out.append([(idx[a], b) for a, b in r])
+        v = [(idx[a], b) for a, b in r]
+        # a read that raises must raise the same exception class in the pristine process (and vice versa)
+        for i, (op, o) in enumerate(zip(h, obs)):
+            if op["op"] == "read" and not o.get("skipped"):
+                pr = pristine.get(read_key(op), {})
+                if (o.get("err") or None) != (pr.get("err") or None) and (i, 4) not in v:
+                    v.append((i, 4))
+        out.append(v)
     return out
 
 
